@@ -224,14 +224,33 @@ func run(pc *propCfg, id, tier string, seed uint64, budget, nw int, replayFile, 
 				"VERIF_SEED="+strconv.FormatUint(seed, 10), "VERIF_WORKER="+strconv.Itoa(j.worker),
 				"VERIF_WORKERS="+strconv.Itoa(j.of), "VERIF_BUDGET_S="+strconv.Itoa(budget), "VERIF_OUT="+out)
 			env = append(env, pc.extraEnv(tier)...)
+			if pc.crashIsViolation {
+				env = append(env, "VERIF_BREADCRUMB="+filepath.Join(scratch, fmt.Sprintf("crumb-%d.json", i)))
+			}
 			results[i], errs[i] = runWorker(j.b.bin, env, out, time.Duration(budget)*time.Second+pc.grace(tier))
 		}(i, j)
 	}
 	wg.Wait()
+	crashed := 0
 	for i, e := range errs {
-		if e != nil {
-			fatal2("worker %d (%s) failed: %v", i, jobs[i].b.variant, e)
+		if e == nil {
+			continue
 		}
+		crumb := filepath.Join(scratch, fmt.Sprintf("crumb-%d.json", i))
+		b, rerr := os.ReadFile(crumb)
+		if pc.crashIsViolation && rerr == nil && (strings.Contains(e.Error(), "signal:") || strings.Contains(e.Error(), "fatal error") || strings.Contains(e.Error(), "unexpected fault address")) {
+			// the code under test corrupted memory badly enough to kill the
+			// process: for a memory-ownership property that is the violation
+			h := sha256.Sum256(b)
+			path := filepath.Join(verifDir, "replays", fmt.Sprintf("%s-crash-%s.json", id, hex.EncodeToString(h[:5])))
+			_ = os.MkdirAll(filepath.Dir(path), 0o755)
+			_ = os.WriteFile(path, b, 0o644)
+			fmt.Printf("VIOLATION property=%s replay=%s\n  key=%s/fatal-crash the worker process died (%s) while executing the plan in the replay file\n", id, path, id, firstLine(e.Error()))
+			crashed++
+			results[i] = &runner.Result{Probes: map[string]int{}, Faults: map[string]int{}}
+			continue
+		}
+		fatal2("worker %d (%s) failed: %v", i, jobs[i].b.variant, e)
 	}
 	// merge
 	agg := &runner.Result{Probes: map[string]int{}, Faults: map[string]int{}}
@@ -275,7 +294,10 @@ func run(pc *propCfg, id, tier string, seed uint64, budget, nw int, replayFile, 
 	// verify + classify violations
 	known := loadKnown()
 	exit := 0
-	nViol := 0
+	nViol := crashed
+	if crashed > 0 {
+		exit = 1
+	}
 	var lines []string
 	binOf := map[string]string{}
 	for _, b := range builds {
@@ -368,6 +390,13 @@ func runWorker(bin string, env []string, out string, timeout time.Duration) (*ru
 	return &r, nil
 }
 
+func firstLine(s string) string {
+	if i := strings.IndexByte(s, '\n'); i >= 0 {
+		return s[:i]
+	}
+	return s
+}
+
 func tail(s string, n int) string {
 	if len(s) > n {
 		return "..." + s[len(s)-n:]
@@ -381,6 +410,11 @@ func doReplay(pc *propCfg, id string, b build, file, scratch string) int {
 	env = append(env, pc.extraEnv("quick")...)
 	rr, err := runWorker(b.bin, env, out, 10*time.Minute)
 	if err != nil {
+		if pc.crashIsViolation && strings.Contains(err.Error(), "signal:") {
+			abs, _ := filepath.Abs(file)
+			fmt.Printf("VIOLATION property=%s replay=%s\n  the worker process died again while executing the plan (%s)\n", id, abs, firstLine(err.Error()))
+			return 1
+		}
 		fatal2("replay worker: %v", err)
 	}
 	fmt.Println(rr.ReplayNote)
